@@ -323,11 +323,21 @@ class Interp:
         if k in dec:
             return dec[k][0]
         # does the path condition decide it?
-        if st.pc or st.facts:
+        if st.pc or st.facts or st.array_facts:
             s = z3.Solver()
             s.set("timeout", 2000)
             for f in st.all_assumptions():
                 s.add(f)
+            if st.array_facts:
+                # quantified preconditions about input arrays: instantiate them for the applications in the condition
+                from .axioms import collect_apps
+                apps = collect_apps([t])
+                for fname, fact in st.array_facts:
+                    for e in apps.get(fname, {}).values():
+                        try:
+                            s.add(fact(*e.children()))
+                        except Exception:  # pragma: no cover
+                            pass
             s.push()
             s.add(z3.Not(t))
             r1 = s.check()
